@@ -20,7 +20,8 @@
 #endif
 /* PARTS selects which post-conditions a harness instance asserts (the solver cost of all of them in one query is
  * several times the sum of the separate queries): 1 lock-step with LZHUF, 2 tree/count/leaf-map consistency,
- * 4 group consistency, 8 free-group list.  Every part is asserted by some instance in the plan. */
+ * 4 group consistency (= 16 membership + 32 leaders/count), 8 free-group list.  Every part is asserted by some
+ * instance in the plan. */
 #ifndef PARTS
 #define PARTS 15
 #endif
@@ -96,12 +97,42 @@ static void lz_reconst(void)
 	}
 }
 
-/* increment frequency of given code by one, and update tree */
-static void lz_update(int c)
+/* body of update()'s do-while loop for node c: count it, exchange nodes if the order is disturbed; returns the
+ * next node (the parent), 0 after the root */
+static int lz_update_node(int c)
 {
 	int i, j, l;
 	unsigned k;
 
+	k = ++lz_freq[c];
+
+	/* if the order is disturbed, exchange nodes */
+	if (k > lz_freq[l = c + 1]) {
+		while (k > lz_freq[++l]);
+		l--;
+		lz_freq[c] = lz_freq[l];
+		lz_freq[l] = k;
+
+		i = lz_son[c];
+		lz_prnt[i] = l;
+		if (i < LZ_T) lz_prnt[i + 1] = l;
+
+		j = lz_son[l];
+		lz_son[l] = i;
+
+		lz_prnt[j] = c;
+		if (j < LZ_T) lz_prnt[j + 1] = c;
+		lz_son[c] = j;
+
+		c = l;
+		++lz_exchanges;
+	}
+	return lz_prnt[c];
+}
+
+/* increment frequency of given code by one, and update tree */
+static void lz_update(int c)
+{
 	if (lz_freq[LZ_R] == LZ_MAX_FREQ) {
 #ifdef LZ_RECONST_EXCLUDED
 		CHECK(0, "C02 reference: the rebuild is outside this harness (root count below the limit)");
@@ -111,30 +142,8 @@ static void lz_update(int c)
 	}
 	c = lz_prnt[c + LZ_T];
 	do {
-		k = ++lz_freq[c];
-
-		/* if the order is disturbed, exchange nodes */
-		if (k > lz_freq[l = c + 1]) {
-			while (k > lz_freq[++l]);
-			l--;
-			lz_freq[c] = lz_freq[l];
-			lz_freq[l] = k;
-
-			i = lz_son[c];
-			lz_prnt[i] = l;
-			if (i < LZ_T) lz_prnt[i + 1] = l;
-
-			j = lz_son[l];
-			lz_son[l] = i;
-
-			lz_prnt[j] = c;
-			if (j < LZ_T) lz_prnt[j + 1] = c;
-			lz_son[c] = j;
-
-			c = l;
-			++lz_exchanges;
-		}
-	} while ((c = lz_prnt[c]) != 0);    /* repeat up to root */
+		c = lz_update_node(c);
+	} while (c != 0);    /* repeat up to root */
 }
 
 /* ------------------------------------------------------------------------------------------------
@@ -223,8 +232,11 @@ static int inv_tree(const LHALH1Decoder *d)
 }
 
 /* counts: table sorted by non-increasing count, leaves >= 1, branch = sum of its children, root <= limit.
- * Requires inv_tree (child indices in range). */
-static int inv_freq(const LHALH1Decoder *d, unsigned limit)
+ * Requires inv_tree (child indices in range).
+ * pending != 0 describes the state inside increment_for_code's loop when node `pending` is the next to be counted:
+ * the root has already been counted (one more than its children), and `pending`, if a branch, not yet (one less than
+ * its children, one of which has just been counted). */
+static int inv_freq_mid(const LHALH1Decoder *d, unsigned pending, unsigned limit)
 {
 	unsigned i;
 	int ok = 1;
@@ -236,7 +248,10 @@ static int inv_freq(const LHALH1Decoder *d, unsigned limit)
 		} else {
 			unsigned c = d->nodes[i].child_index;
 			if (c >= 1 && c < NUM_TREE_NODES) {
-				if ((unsigned) d->nodes[i].freq != (unsigned) d->nodes[c].freq + (unsigned) d->nodes[c - 1].freq) ok = 0;
+				unsigned sum = (unsigned) d->nodes[c].freq + (unsigned) d->nodes[c - 1].freq;
+				if (pending != 0 && i == 0) sum += 1;
+				if (pending != 0 && i == pending) sum -= 1;
+				if ((unsigned) d->nodes[i].freq != sum) ok = 0;
 			} else {
 				ok = 0;
 			}
@@ -244,6 +259,11 @@ static int inv_freq(const LHALH1Decoder *d, unsigned limit)
 	}
 	if (d->nodes[0].freq > limit) ok = 0;
 	return ok;
+}
+
+static int inv_freq(const LHALH1Decoder *d, unsigned limit)
+{
+	return inv_freq_mid(d, 0, limit);
 }
 
 /* leaf_nodes[] is the inverse of "leaf i carries code c" */
@@ -262,9 +282,23 @@ static int inv_leafmap(const LHALH1Decoder *d)
 
 /* groups: two nodes are in the same group exactly if they have the same count (the groups are the runs of the
  * sorted table); group_leader[g] is the left-most node of the run; num_groups = number of runs */
-static int inv_groups(const LHALH1Decoder *d)
+static int inv_groups_member(const LHALH1Decoder *d)
 {
-	unsigned i, j, runs = 0;
+	unsigned i, j;
+	int ok = 1;
+
+	for (i = 0; i < NUM_TREE_NODES; ++i) {
+		if (d->nodes[i].group >= NUM_TREE_NODES) ok = 0;
+		for (j = i + 1; j < NUM_TREE_NODES; ++j) {
+			if ((d->nodes[i].group == d->nodes[j].group) != (d->nodes[i].freq == d->nodes[j].freq)) ok = 0;
+		}
+	}
+	return ok;
+}
+
+static int inv_groups_leader(const LHALH1Decoder *d)
+{
+	unsigned i, runs = 0;
 	int ok = 1;
 
 	for (i = 0; i < NUM_TREE_NODES; ++i) {
@@ -275,12 +309,14 @@ static int inv_groups(const LHALH1Decoder *d)
 			++runs;
 			if (d->group_leader[g] != i) ok = 0;
 		}
-		for (j = i + 1; j < NUM_TREE_NODES; ++j) {
-			if ((d->nodes[i].group == d->nodes[j].group) != (d->nodes[i].freq == d->nodes[j].freq)) ok = 0;
-		}
 	}
 	if (d->num_groups != runs) ok = 0;
 	return ok;
+}
+
+static int inv_groups(const LHALH1Decoder *d)
+{
+	return inv_groups_member(d) && inv_groups_leader(d);
 }
 
 /* free list: groups[num_groups .. NUM_TREE_NODES) are distinct group numbers, none of them in use */
@@ -309,20 +345,31 @@ static int lh1_inv(const LHALH1Decoder *d, unsigned limit)
 	return inv_tree(d) && inv_freq(d, limit) && inv_leafmap(d) && inv_groups(d) && inv_free(d);
 }
 
-static void check_inv(const LHALH1Decoder *d, unsigned limit)
+static void check_inv_mid(const LHALH1Decoder *d, unsigned pending, unsigned limit)
 {
 #if PARTS & 2
 	CHECK(inv_tree(d), "C02 consistency: proper binary tree, children above their parent, parent links, one leaf per symbol");
-	CHECK(inv_freq(d, limit), "C02 consistency: table sorted by count, branch count = sum of children, root count <= limit");
+	CHECK(inv_freq_mid(d, pending, limit), "C02 consistency: table sorted by count, branch count = sum of children, root count <= limit");
 	CHECK(inv_leafmap(d), "C02 consistency: leaf_nodes[] is the inverse of the leaves' symbols");
 #endif
 #if PARTS & 4
 	CHECK(inv_groups(d), "C02 consistency: groups are exactly the equal-count runs, group_leader is each run's left-most node, num_groups counts them");
 #endif
+#if PARTS & 16
+	CHECK(inv_groups_member(d), "C02 consistency: two nodes are in the same group exactly if they have the same count");
+#endif
+#if PARTS & 32
+	CHECK(inv_groups_leader(d), "C02 consistency: group_leader is each run's left-most node, num_groups counts the runs");
+#endif
 #if PARTS & 8
 	CHECK(inv_free(d), "C02 consistency: the free part of groups[] lists each unused group number exactly once");
 #endif
-	(void) d; (void) limit;
+	(void) d; (void) limit; (void) pending;
+}
+
+static void check_inv(const LHALH1Decoder *d, unsigned limit)
+{
+	check_inv_mid(d, 0, limit);
 }
 
 /* ------------------------------------------------------------------------------------------------
